@@ -2,7 +2,7 @@
   C13/Theorems — the ledger for property C13.  Every `theorem` in this file is audited
   (`#print axioms` ⊆ {propext, Classical.choice, Quot.sound}) on every run.
 -/
-import OttoVerif.C13.Spec
+import OttoVerif.C13.Lemmas
 import OttoVerif.C05.Theorems
 namespace OttoVerif.C13.Thm
 open OttoVerif.F64 OttoVerif.Str OttoVerif.C13
@@ -18,6 +18,178 @@ theorem isNaN_isFinite (E : C05.Env) (v : C05.Val) :
 
 theorem abs_eq (x : FV) : mathAbs x = Spec.abs x := by
   cases x <;> rfl
+
+/-! ## special values of the unary functions -/
+
+/-- the facts about the opaque library that ES5's tables need beyond Go's documented special cases
+    (each is checked per sample by the correspondence harness) -/
+structure LibOK (L : Lib) : Prop where
+  cos_zero : ∀ s e, L.core1 .cos (.fin s 0 e) = one
+  exp_zero : ∀ s e, L.core1 .exp (.fin s 0 e) = one
+  log_one : ∀ m e, eqNum (.fin false m e) one = true → L.core1 .log (.fin false m e) = zero
+  acos_one : ∀ x, eqNum x one = true → L.core1 .acos x = zero
+
+/-- C13.special_values — on every argument for which §15.8.2.2–4, 7, 8, 10, 16–18 fix the result of
+    acos asin atan cos exp log sin sqrt tan, otto returns exactly that result -/
+theorem special_values (L : Lib) (hL : LibOK L) (f : Fn1) (x r : FV)
+    (h : Spec.fn1Table f x = some r) : mathFn1 L f x = r := by
+  cases f with
+  | sin => cases x with
+    | nan => simp [Spec.fn1Table] at h; subst h; simp [mathFn1, goFn1, isNaN, isZero]
+    | inf s => simp [Spec.fn1Table] at h; subst h; simp [mathFn1, goFn1, isNaN, isZero, isInf]
+    | fin s m e => by_cases hm : m = 0 <;> simp [Spec.fn1Table, hm] at h; subst h; simp [mathFn1, goFn1, isNaN, isInf, hm]
+  | tan => cases x with
+    | nan => simp [Spec.fn1Table] at h; subst h; simp [mathFn1, goFn1, isNaN, isZero]
+    | inf s => simp [Spec.fn1Table] at h; subst h; simp [mathFn1, goFn1, isNaN, isZero, isInf]
+    | fin s m e => by_cases hm : m = 0 <;> simp [Spec.fn1Table, hm] at h; subst h; simp [mathFn1, goFn1, isNaN, isInf, hm]
+  | cos => cases x with
+    | nan => simp [Spec.fn1Table] at h; subst h; simp [mathFn1, goFn1, isNaN, isZero]
+    | inf s => simp [Spec.fn1Table] at h; subst h; simp [mathFn1, goFn1, isNaN, isZero, isInf]
+    | fin s m e => by_cases hm : m = 0 <;> simp [Spec.fn1Table, hm] at h; subst h; subst hm; simp [mathFn1, goFn1, isNaN, isInf, hL.cos_zero]
+  | atan => cases x with
+    | nan => simp [Spec.fn1Table] at h; subst h; simp [mathFn1, goFn1, isNaN, isZero]
+    | inf s => simp [Spec.fn1Table] at h; subst h; cases s <;> simp [mathFn1, goFn1, isNaN, isZero, isInf, copysign, signBit]
+    | fin s m e => by_cases hm : m = 0 <;> simp [Spec.fn1Table, hm] at h; subst h; simp [mathFn1, goFn1, isNaN, isInf, hm]
+  | sqrt => cases x with
+    | nan => simp [Spec.fn1Table] at h; subst h; simp [mathFn1, goFn1]
+    | inf s => simp [Spec.fn1Table] at h; subst h; simp [mathFn1, goFn1]
+    | fin s m e =>
+      by_cases hm : m = 0 <;> cases s <;> simp [Spec.fn1Table, hm] at h <;> subst h <;> simp [mathFn1, goFn1, hm]
+  | asin => cases x with
+    | nan => simp [Spec.fn1Table, isNaN] at h; subst h; simp [mathFn1, goFn1, isNaN, isZero]
+    | inf s =>
+      cases s <;> simp [Spec.fn1Table, isNaN, Spec.gtOne, Spec.ltNegOne, one, negOne] at h <;> subst h <;>
+        simp [mathFn1, goFn1, isNaN, isZero, gt, abs, one]
+    | fin s m e =>
+      have hz := one_cmp_zero s e
+      by_cases hm : m = 0
+      · subst hm; simp [Spec.fn1Table, isNaN, hz] at h; subst h; simp [mathFn1, goFn1]
+      · simp only [mathFn1, goFn1, isZero_fin, hm, decide_false, Bool.false_eq_true, if_false, isNaN, abs_gt_one]
+        simp only [Spec.fn1Table, isNaN, Bool.false_eq_true, if_false, isZero_fin, hm, decide_false] at h
+        by_cases h1 : Spec.gtOne (.fin s m e) = true <;> by_cases h2 : Spec.ltNegOne (.fin s m e) = true <;>
+          simp [h1, h2] at h ⊢ <;> exact h
+  | acos => cases x with
+    | nan => simp [Spec.fn1Table, isNaN] at h; subst h; simp [mathFn1, goFn1, isNaN, isZero]
+    | inf s =>
+      cases s <;> simp [Spec.fn1Table, isNaN, Spec.gtOne, Spec.ltNegOne, one, negOne] at h <;> subst h <;>
+        simp [mathFn1, goFn1, isNaN, isZero, gt, abs, one]
+    | fin s m e =>
+      simp only [mathFn1, goFn1, isNaN, Bool.false_eq_true, if_false, abs_gt_one]
+      simp only [Spec.fn1Table, isNaN, Bool.false_eq_true, if_false] at h
+      by_cases h1 : Spec.gtOne (.fin s m e) = true <;> by_cases h2 : Spec.ltNegOne (.fin s m e) = true <;>
+        simp [h1, h2] at h ⊢ <;> try exact h
+      by_cases h3 : eqNum (.fin s m e) one = true
+      · simp [h3] at h; rw [← h]; exact hL.acos_one _ h3
+      · simp [h3] at h
+  | exp => cases x with
+    | nan => simp [Spec.fn1Table] at h; subst h; simp [mathFn1, goFn1]
+    | inf s => simp [Spec.fn1Table] at h; subst h; simp [mathFn1, goFn1]
+    | fin s m e =>
+      by_cases hm : m = 0
+      · subst hm; simp [Spec.fn1Table] at h; subst h
+        have : expOverflowAmd64 (.fin s 0 e) = false := by
+          have h3 := alignInt_sign false 0x162E42FEFA39EF (-43) (if (-43:Int) ≤ e then -43 else e) (by decide)
+          simp [expOverflowAmd64, gt, expOverflowConst, lt_fin, alignInt_zero, mul, rneInt, log2e] at h3 ⊢
+          omega
+        simp [mathFn1, goFn1, this, hL.exp_zero]
+      · simp [Spec.fn1Table, hm] at h
+  | log => cases x with
+    | nan => simp [Spec.fn1Table] at h; subst h; simp [mathFn1, goFn1]
+    | inf s => simp [Spec.fn1Table] at h; subst h; simp [mathFn1, goFn1]
+    | fin s m e =>
+      by_cases hm : m = 0
+      · subst hm; simp [Spec.fn1Table] at h; subst h; simp [mathFn1, goFn1]
+      · cases s
+        · simp only [Spec.fn1Table, hm, if_false, Bool.false_eq_true] at h
+          by_cases h3 : eqNum (.fin false m e) one = true
+          · simp [h3] at h; subst h
+            have hne : ¬(e = -1074 ∧ m < 2^52) := by
+              intro ⟨he, hlt⟩
+              subst he
+              simp only [one, eqNum_fin, alignInt] at h3
+              have h4 : (2:Nat)^52 ≤ 2^1074 := Nat.pow_le_pow_right (by decide) (by decide)
+              generalize (2:Nat)^1074 = P at *
+              simp at h3
+              omega
+            simp [mathFn1, goFn1, hm, logFrexpAmd64, hne, hL.log_one m e h3]
+          · simp [h3] at h
+        · simp [Spec.fn1Table, hm] at h; subst h; simp [mathFn1, goFn1, hm]
+
+/-! ## max / min (§15.8.2.11–12) -/
+
+/-- C13.max_min — Math.max over any argument list (0, 1, many; NaN anywhere; ±0 ordering) is §15.8.2.11 -/
+theorem max_eq (l : List FV) : mathMax l = Spec.max l := by
+  match l with
+  | [] => simp [mathMax, Spec.max]
+  | [a] =>
+    simp only [mathMax, Spec.max, List.any_cons, List.any_nil, Bool.or_false, List.foldl_cons, List.foldl_nil]
+    by_cases h : isNaN a = true
+    · have := isNaN_eq a h; subst this; simp [isNaN]
+    · have h' : isNaN a = false := by simpa using h
+      simp [h', max2_negInf a h']
+  | a :: b :: rest =>
+    simp only [mathMax, Spec.max, List.any_cons, List.foldl_cons]
+    by_cases h : isNaN a = true
+    · simp [h]
+    · have h' : isNaN a = false := by simpa using h
+      rw [max2_negInf a h', foldNaN_eq goMax Spec.max2 goMax_eq max2_cases (b :: rest) a h']
+      simp [h', List.any_cons, List.foldl_cons]
+
+theorem min_eq (l : List FV) : mathMin l = Spec.min l := by
+  match l with
+  | [] => simp [mathMin, Spec.min]
+  | [a] =>
+    simp only [mathMin, Spec.min, List.any_cons, List.any_nil, Bool.or_false, List.foldl_cons, List.foldl_nil]
+    by_cases h : isNaN a = true
+    · have := isNaN_eq a h; subst this; simp [isNaN]
+    · have h' : isNaN a = false := by simpa using h
+      simp [h', min2_posInf a h']
+  | a :: b :: rest =>
+    simp only [mathMin, Spec.min, List.any_cons, List.foldl_cons]
+    by_cases h : isNaN a = true
+    · simp [h]
+    · have h' : isNaN a = false := by simpa using h
+      rw [min2_posInf a h', foldNaN_eq goMin Spec.min2 goMin_eq min2_cases (b :: rest) a h']
+      simp [h', List.any_cons, List.foldl_cons]
+
+/-! ## atan2 (§15.8.2.5) -/
+
+/-- C13.atan2_table — on every argument pair for which §15.8.2.5 fixes the result, otto returns it -/
+theorem atan2_table (L : Lib) (y x r : FV) (h : Spec.atan2Table y x = some r) : mathAtan2 L y x = r := by
+  cases y with
+  | nan => simp [Spec.atan2Table, isNaN] at h; simp [mathAtan2, isNaN, h]
+  | inf sy => cases x with
+    | nan => simp [Spec.atan2Table, isNaN] at h; simp [mathAtan2, isNaN, h]
+    | inf sx =>
+      cases sy <;> cases sx <;>
+      simp [Spec.atan2Table, isNaN, isZero, Spec.isFiniteV, signBit] at h <;>
+      simp [mathAtan2, goAtan2, isNaN, isZero, isInf, copysign, signBit, ← h]
+    | fin sx mx ex =>
+      cases sy <;> by_cases hm : mx = 0 <;>
+      simp [Spec.atan2Table, isNaN, isZero_fin, isZero, Spec.isFiniteV, signBit, hm, Spec.isPositive, zero] at h <;>
+      simp [mathAtan2, goAtan2, isNaN, isZero_fin, isZero, isInf, copysign, signBit, hm, ← h]
+  | fin sy my ey => cases x with
+    | nan => simp [Spec.atan2Table, isNaN] at h; simp [mathAtan2, isNaN, h]
+    | inf sx =>
+      cases sy <;> cases sx <;> by_cases hm : my = 0 <;>
+      simp [Spec.atan2Table, isNaN, isZero_fin, isZero, Spec.isFiniteV, signBit, hm, Spec.isPositive, zero] at h <;>
+      simp [mathAtan2, goAtan2, isNaN, isZero_fin, isZero, isInf, copysign, signBit, hm, zero, negZero, neg, ← h]
+    | fin sx mx ex =>
+      cases sy <;> cases sx <;> by_cases hy : my = 0 <;> by_cases hx : mx = 0 <;>
+      simp [Spec.atan2Table, isNaN, isZero_fin, Spec.isFiniteV, signBit, hy, hx, Spec.isPositive, zero] at h <;>
+      simp [mathAtan2, goAtan2, isNaN, isZero_fin, isInf, copysign, signBit, hy, hx, zero, negZero, neg, ← h]
+
+/-! ## escape / unescape (§B.2.1–2) -/
+
+/-- C13.escape_roundtrip — for every string of BMP characters (held, as otto holds it, as the Go string
+    `encodeRunes rs`), unescape(escape(s)) = s. -/
+theorem escape_roundtrip (rs : List Nat) (h : ∀ r ∈ rs, BMP r) :
+    unescape (.go (escape (.go (encodeRunes rs)))) = encodeRunes rs := by
+  simp only [unescape, escape, SV.string]
+  rw [escape_unescape_runes rs h _ (Nat.le_refl _)]
+
+/-- non-vacuity: "aé€ %" is a BMP string -/
+example : ∀ r ∈ [97, 0xE9, 0x20AC, 32, 37], BMP r := by simp [BMP]
 
 /-! ## Dev witnesses (kernel-checked; each is replayed on the real code by the harness) -/
 
